@@ -3,7 +3,7 @@
    C09 (interval indices), C02 (chain), C03 (KEK agreement) and the laws of the primitives. *)
 From Coq Require Import String.
 From V Require Import Prelude.Base Prelude.PyInt Prelude.PySlice Prelude.PyStr.
-From V Require Import gen.Kernels gen.K_cache gen.K_gkdi gen.K_asn1 gen.C_asn1 gen.C_gkdi gen.Consts.
+From V Require Import gen.Kernels gen.K_cache gen.K_gkdi gen.K_asn1 gen.C_asn1 gen.C_gkdi gen.Consts gen.K_e2e.
 From V Require Import Model.Types Model.Crypto Model.Sym Model.Chain Model.KeyId Model.Gkdi Model.Kek Model.SecDesc.
 From V Require Import Model.Asn1 Model.Pkcs7 Model.Blob Model.CryptoWrap Model.Interval Model.Client.
 From V Require Import Spec.GkdiSpec Spec.KekSpec.
@@ -537,38 +537,7 @@ Example nonconforming_cache_entry :
   end.
 Proof. split; vm_compute; auto. Qed.
 
-(* ---- DH public-key mode instance: the group of KekExamples (p = 65521, g = 17, 2-byte fields) ---- *)
-Definition ex_sd : bytes := target_sd (parsed ex_sid).
-Definition ex_pk_seed : bytes := match derived_seed symg SHA512 ex_rk ex_rkid ex_sd 361 31 23 with Ok x => x | Raise _ => [] end.
-Definition ex_pk_ybytes : bytes := kdf symg SHA512 ex_pk_seed KDS_SERVICE (lit16z "DH") (bytes_of_bits 512).
-Definition ex_ep_dh : envelope :=
-  {| gke_version := 1; gke_flags := 1; gke_l0 := 361; gke_l1 := 31; gke_l2 := 23; gke_rkid := ex_rkid;
-     gke_kdf_alg := STR_KDF_ALG; gke_kdf_params := KekExamples.ex_kdf_params; gke_secret_alg := STR_DH; gke_secret_params := [];
-     gke_priv_len := 512; gke_pub_len := 16; gke_domain := [100]; gke_forest := [102; 46; 103]; gke_l1_key := [];
-     gke_l2_key := concat (GkdiStructs.ffk_field_list {| ffk_key_length := 2; ffk_field_order := 65521; ffk_generator := 17;
-                                                         ffk_public_key := modpow 17 (OS2IP ex_pk_ybytes) 65521 |}) |}.
-Lemma ex_dh_env_ok : dh_env_ok symg SHA512 ex_rk ex_rkid 361 31 23 ex_ep_dh ex_pk_seed 2 65521 17.
-Proof.
-  assert (Wy : wfb ex_pk_ybytes = true) by (vm_compute; reflexivity).
-  constructor; try reflexivity; try lia; try exact Wy.
-  cbn [ex_ep_dh gke_l2_key gke_priv_len]. fold ex_pk_ybytes. unfold dh_public.
-  rewrite <- modpow_spec; [reflexivity|lia|]. rewrite OS2IP_be_val. apply be_val_range, Wy.
-Qed.
-Example example_pubkey_dh : exists blob,
-  encrypt_blob symg ex_r1 ex_r2 ex_r3 [1; 2; 3] ex_ep_dh ex_sid = Ok blob /\
-  fst (unprotect_offline symg ex_cache blob) = Ok [1; 2; 3] /\
-  exists blob2, (let* b := blob_unpack blob in blob_pack b false) = Ok blob2 /\ fst (unprotect_offline symg ex_cache blob2) = Ok [1; 2; 3].
-Proof.
-  assert (E : exists blob, encrypt_blob symg ex_r1 ex_r2 ex_r3 [1; 2; 3] ex_ep_dh ex_sid = Ok blob) by (eexists; vm_compute; reflexivity).
-  destruct E as (blob & E). exists blob. split; [exact E|].
-  assert (Hc : cache_ok symg SHA512 ex_rk ex_rkid ex_sd 361 ex_cache) by (apply cache_ok_fresh; reflexivity).
-  destruct (roundtrip_pubkey_dh symg SHA512 ex_rk ex_rkid (parsed ex_sid) ex_sid 361 31 23
-              ltac:(vm_compute; reflexivity) eq_refl eq_refl ltac:(vm_compute; reflexivity) ltac:(vm_compute; reflexivity) ltac:(lia) ltac:(lia) ltac:(lia)
-              symg_laws ex_ep_dh ex_pk_seed 2 65521 17 ex_r1 ex_r2 ex_r3 [1; 2; 3] blob
-              ltac:(vm_compute; reflexivity) ex_dh_env_ok ltac:(vm_compute; reflexivity) ltac:(unfold U32; lia) eq_refl) as [(blob2 & E2) HX].
-  - intros k w Ew. apply symg_kw_wrap_inv in Ew as (Hk & Hx & ->). apply okb_spec in Hk as [_ Hk]. rewrite len_symterm. cbn [fold_right].
-    change (len ex_r1) with 32. unfold U32. admit.
-  - ex_gcm_size.
-  - exact E.
-  - destruct (HX ex_cache Hc) as [U1 U2]. split; [exact U1|]. exists blob2. split; [exact E2|apply U2, E2].
-Abort.
+
+(* the data flow of _encrypt_blob the model encrypt_blob mirrors (regenerated from the source on every run) *)
+Lemma blob_flow : k_encrypt_blob_flow = true.
+Proof. reflexivity. Qed.
